@@ -17,6 +17,13 @@ def fltParamL (lo hi : Nat) : List Bytes :=
 
 def sizeParamL (lo hi : Int) : List Bytes := [intKey lo, if hi = maxInt then defaultKey else intKey hi]
 
+/-- the parameter list of a wrapper type (`wrapParam` as a list of keys) -/
+def wrapParamL (quirk : Bool) (t : Ty) : List Bytes :=
+  if t.isAny then []
+  else match quirk, t with
+    | true, .strVal v => if v.isEmpty then [tyKey t] else [strMark ++ v]
+    | _, _ => [tyKey t]
+
 def tyParamL : Ty → List Bytes
   | .any => [] | .undef => [] | .str => []
   | .int lo hi => intParamL lo hi
@@ -26,8 +33,19 @@ def tyParamL : Ty → List Bytes
       (if lo = 0 ∧ hi = maxInt then [] else sizeParamL lo hi)
   | .var ts => intKey ts.length :: dedupS (sortB (ts.map tyKey))
   | .tup ts sz => ts.map tyKey ++ sizeParamL (goaSize ts.length sz).1 (goaSize ts.length sz).2
-  | .opt t => if t.isAny then [] else [tyKey t]
-  | .typ t => if t.isAny then [] else [tyKey t]
+  | .opt t => wrapParamL true t
+  | .typ t => wrapParamL false t
+  | .nul _ => []
+  | .bool none => []
+  | .bool (some b) => [boolKey b]
+  | .coll lo hi => if lo = 0 ∧ hi = maxInt then [] else sizeParamL lo hi
+  | .un k t => wrapParamL (k == .notUndef) t
+  | .strSize lo hi => intParamL lo hi
+  | .strVal v => [strMark ++ v]
+  | .rx p => if p.isEmpty then [] else [rxKey p]
+  | .pattern ps => intKey ps.length :: dedupS (sortB (ps.map rxKey))
+  | .tref s => if s = unresolvedRef then [] else [strMark ++ s]
+  | .semverT _ rs => if rangesEq rs matchAllR then [] else [strMark ++ normStr rs]
 
 theorem flat_append (a b : List Bytes) : flat (a ++ b) = flat a ++ flat b := by
   induction a with
@@ -45,6 +63,10 @@ theorem tyKeyL_eq : ∀ ts : List Ty, tyKeyL ts = ts.map tyKey
 theorem frames_eq : ∀ ks : List Bytes, frames ks = flat (ks.map frame)
   | [] => rfl
   | k :: ks => by simp [frames, flat, frames_eq ks]
+
+theorem wrapParam_shape (q : Bool) (t : Ty) : wrapParam q t (tyKey t) = flat ((wrapParamL q t).map frame) := by
+  cases q <;> cases t <;> simp [wrapParam, wrapParamL, Ty.isAny, flat, ekStr]
+  split <;> simp [flat]
 
 theorem tyKey_shape (t : Ty) : tyKey t = [1, 0x74] ++ (frame (strMark ++ t.name) ++ flat ((tyParamL t).map frame)) := by
   cases t with
@@ -66,12 +88,74 @@ theorem tyKey_shape (t : Ty) : tyKey t = [1, 0x74] ++ (frame (strMark ++ t.name)
     simp only [tyKey, tyParamL, Ty.name, ekStr, List.map_append, flat_append, tyKeys_eq, sizeParams, sizeParamL,
       ekInt, ekDefault]
     split <;> simp [flat]
-  | opt t =>
+  | opt t => simp [tyKey, tyParamL, Ty.name, ekStr, wrapParam_shape]
+  | typ t => simp [tyKey, tyParamL, Ty.name, ekStr, wrapParam_shape]
+  | nul k => cases k <;> simp [tyKey, tyParamL, Ty.name, ekStr, flat]
+  | bool v => cases v <;> simp [tyKey, tyParamL, Ty.name, ekStr, ekBool, flat]
+  | coll lo hi =>
+    simp only [tyKey, tyParamL, Ty.name, ekStr, sizeParams, sizeParamL, ekInt, ekDefault]
+    split <;> (try split) <;> simp [flat]
+  | un k t => cases k <;> simp [tyKey, tyParamL, Ty.name, ekStr, wrapParam_shape]
+  | strSize lo hi =>
+    simp only [tyKey, tyParamL, intParams, intParamL, Ty.name, ekStr, ekDefault, ekInt]
+    split <;> split <;> simp [flat]
+  | strVal v => simp [tyKey, tyParamL, Ty.name, ekStr, flat]
+  | rx p =>
     simp only [tyKey, tyParamL, Ty.name, ekStr]
     split <;> simp [flat]
-  | typ t =>
+  | pattern ps => simp [tyKey, tyParamL, Ty.name, ekStr, ekInt, unorderedParams, frames_eq, flat]
+  | tref s =>
     simp only [tyKey, tyParamL, Ty.name, ekStr]
     split <;> simp [flat]
+  | semverT o rs =>
+    simp only [tyKey, tyParamL, Ty.name, ekStr]
+    split <;> simp [flat]
+
+/-! ### names: which constructors share a name -/
+
+inductive NameTag where
+  | any | undef | str | int | flt | enum | arr | var | tup | opt | typ
+  | nul (k : NulK) | bool | coll | un (k : UnK) | rx | pattern | tref | semver
+  deriving DecidableEq
+
+def nameTag : Ty → NameTag
+  | .any => .any | .undef => .undef | .str => .str | .int _ _ => .int | .flt _ _ => .flt | .enum _ _ => .enum
+  | .arr _ _ _ => .arr | .var _ => .var | .tup _ _ => .tup | .opt _ => .opt | .typ _ => .typ
+  | .nul k => .nul k | .bool _ => .bool | .coll _ _ => .coll | .un k _ => .un k
+  | .strSize _ _ => .str | .strVal _ => .str | .rx _ => .rx | .pattern _ => .pattern | .tref _ => .tref
+  | .semverT _ _ => .semver
+
+def tagName : NameTag → Bytes
+  | .any => Ty.any.name | .undef => Ty.undef.name | .str => Ty.str.name | .int => (Ty.int 0 0).name | .flt => (Ty.flt 0 0).name
+  | .enum => (Ty.enum false []).name | .arr => (Ty.arr .any 0 0).name | .var => (Ty.var []).name | .tup => (Ty.tup [] none).name
+  | .opt => (Ty.opt .any).name | .typ => (Ty.typ .any).name | .nul k => (Ty.nul k).name | .bool => (Ty.bool none).name
+  | .coll => (Ty.coll 0 0).name | .un k => (Ty.un k .any).name | .rx => (Ty.rx []).name | .pattern => (Ty.pattern []).name
+  | .tref => (Ty.tref []).name | .semver => (Ty.semverT [] []).name
+
+theorem name_tag (t : Ty) : t.name = tagName (nameTag t) := by
+  cases t with
+  | nul k => cases k <;> rfl
+  | un k t => cases k <;> rfl
+  | _ => rfl
+
+def allTags : List NameTag :=
+  [.any, .undef, .str, .int, .flt, .enum, .arr, .var, .tup, .opt, .typ, .bool, .coll, .rx, .pattern, .tref, .semver,
+   .nul .dflt, .nul .unit, .nul .scalar, .nul .scalarData, .nul .numeric, .nul .binary, .nul .data, .nul .richData, .nul .semverRange,
+   .un .notUndef, .un .sensitive, .un .iterable, .un .iterator]
+
+theorem mem_allTags (x : NameTag) : x ∈ allTags := by
+  cases x with
+  | nul k => cases k <;> simp [allTags]
+  | un k => cases k <;> simp [allTags]
+  | _ => simp [allTags]
+
+set_option maxRecDepth 100000 in
+theorem tagName_inj_list : ∀ x ∈ allTags, ∀ y ∈ allTags, tagName x = tagName y → x = y := by decide
+
+/-- two types have the same name exactly when their constructors are in the same name class -/
+theorem name_eq_iff (a b : Ty) : a.name = b.name ↔ nameTag a = nameTag b := by
+  rw [name_tag a, name_tag b]
+  exact ⟨tagName_inj_list _ (mem_allTags _) _ (mem_allTags _), fun h => by rw [h]⟩
 
 /-- the key of a type is its name and its parameter keys -/
 theorem tyKey_eq_iff (a b : Ty) : tyKey a = tyKey b ↔ a.name = b.name ∧ tyParamL a = tyParamL b := by
@@ -183,7 +267,7 @@ theorem isAny_eq {t : Ty} (h : t.isAny = true) : t = .any := by
 theorem tyEq_any_left (t : Ty) : tyEq .any t = t.isAny := by cases t <;> simp [tyEq, Ty.isAny]
 theorem tyEq_any_right (t : Ty) : tyEq t .any = t.isAny := by cases t <;> simp [tyEq, Ty.isAny]
 
-/-- the optional leading type parameter of Array / Optional / Type -/
+/-- the optional leading type parameter of Array -/
 theorem optParam_iff {e e' : Ty} (ih : tyKey e = tyKey e' ↔ tyEq e e' = true) :
     (if e.isAny then [] else [tyKey e]) = (if e'.isAny then [] else [tyKey e']) ↔ tyEq e e' = true := by
   cases h : e.isAny <;> cases h' : e'.isAny
@@ -191,6 +275,85 @@ theorem optParam_iff {e e' : Ty} (ih : tyKey e = tyKey e' ↔ tyEq e e' = true) 
   · rw [isAny_eq h', tyEq_any_right, h]; simp
   · rw [isAny_eq h, tyEq_any_left, h']; simp
   · rw [isAny_eq h, isAny_eq h']; simp [tyEq]
+
+def strValOf : Ty → Option Bytes
+  | .strVal v => some v
+  | _ => none
+
+theorem strValOf_some {t : Ty} {v : Bytes} (h : strValOf t = some v) : t = .strVal v := by
+  cases t <;> simp [strValOf] at h; rw [h]
+
+theorem tyEq_strVal_left {v : Bytes} {t : Ty} (h : strValOf t = none) : tyEq (.strVal v) t = false := by
+  cases t <;> simp [strValOf] at h <;> simp [tyEq]
+
+theorem tyEq_strVal_right {v : Bytes} {t : Ty} (h : strValOf t = none) : tyEq t (.strVal v) = false := by
+  cases t <;> simp [strValOf] at h <;> simp [tyEq]
+
+theorem wrapParamL_eq (q : Bool) (t : Ty) : wrapParamL q t =
+    if t.isAny then [] else
+      match q, strValOf t with
+      | true, some v => if v.isEmpty then [tyKey t] else [strMark ++ v]
+      | _, _ => [tyKey t] := by
+  cases q <;> cases t <;> simp [wrapParamL, strValOf, Ty.isAny]
+
+theorem strMark_ne_tyKey (v : Bytes) (t : Ty) : strMark ++ v ≠ tyKey t := by
+  obtain ⟨r, hr⟩ := tyKey_hd t
+  rw [hr]; simp [strMark]
+
+/-- the one parameter of a wrapper type (Optional, Type, NotUndef, Sensitive, Iterable, Iterator): absent for Any; Optional and
+    NotUndef hand out the string `'v'` for a wrapped `String['v']` -/
+theorem wrapParamL_iff {q : Bool} {e e' : Ty} (he : TyWF e = true) (he' : TyWF e' = true)
+    (ih : tyKey e = tyKey e' ↔ tyEq e e' = true) : wrapParamL q e = wrapParamL q e' ↔ tyEq e e' = true := by
+  rw [wrapParamL_eq, wrapParamL_eq]
+  cases h : e.isAny <;> cases h' : e'.isAny
+  · cases q
+    · simp [ih]
+    · cases hs : strValOf e with
+      | none =>
+        cases hs' : strValOf e' with
+        | none => simp [ih]
+        | some v' =>
+          have e2 := strValOf_some hs'
+          subst e2
+          have hv' : v'.isEmpty = false := by simpa [TyWF] using he'
+          have hv'' : v' ≠ [] := by simpa using hv'
+          simp [hv'', tyEq_strVal_right hs, (strMark_ne_tyKey v' e).symm]
+      | some v =>
+        have e1 := strValOf_some hs
+        subst e1
+        have hv : v.isEmpty = false := by simpa [TyWF] using he
+        have hv2 : v ≠ [] := by simpa using hv
+        cases hs' : strValOf e' with
+        | none => simp [hv2, tyEq_strVal_left hs', strMark_ne_tyKey v e']
+        | some v' =>
+          have e2 := strValOf_some hs'
+          subst e2
+          have hv' : v'.isEmpty = false := by simpa [TyWF] using he'
+          have hv'' : v' ≠ [] := by simpa using hv'
+          simp [hv2, hv'', tyEq]
+  · rw [isAny_eq h', tyEq_any_right, h]; cases q <;> cases strValOf e <;> simp <;> split <;> simp
+  · rw [isAny_eq h, tyEq_any_left, h']; cases q <;> cases strValOf e' <;> simp <;> split <;> simp
+  · rw [isAny_eq h, isAny_eq h']; simp [tyEq]
+
+theorem intParamL_ne_nil {lo hi : Int} (h : 0 ≤ lo) : intParamL lo hi ≠ [] := by
+  unfold intParamL
+  have : lo ≠ minInt := by unfold minInt; omega
+  simp only [this, if_false]
+  split <;> simp
+
+theorem intParamL_ne_str {lo hi : Int} {v : Bytes} : intParamL lo hi ≠ [strMark ++ v] := by
+  unfold intParamL
+  split <;> split <;> simp [intKey, defaultKey, strMark]
+
+/-- the optional trailing size of Array / Collection -/
+theorem sizeOptL_iff {lo hi lo' hi' : Int} (h1 : IntOk lo) (h2 : IntOk hi) (h3 : IntOk lo') (h4 : IntOk hi') :
+    ((if lo = 0 ∧ hi = maxInt then [] else sizeParamL lo hi) =
+      (if lo' = 0 ∧ hi' = maxInt then [] else sizeParamL lo' hi')) ↔ lo = lo' ∧ hi = hi' := by
+  split <;> split
+  · simp_all
+  · simp_all [sizeParamL] <;> omega
+  · simp_all [sizeParamL] <;> omega
+  · exact sizeParamL_inj h1 h2 h3 h4
 
 theorem map_strMark_inj : ∀ {vs vs' : List Bytes}, vs.map (strMark ++ ·) = vs'.map (strMark ++ ·) ↔ vs = vs'
   | [], [] => by simp
@@ -257,41 +420,59 @@ theorem enumParam_iff {ci ci' : Bool} {vs vs' : List Bytes} (ha : vs.length < 92
       · exact Or.inl ⟨v, h1 v hv, rfl⟩
       · exact Or.inr h
 
+theorem rxKey_inj {p q : Bytes} : rxKey p = rxKey q ↔ p = q := by simp [rxKey]
+
+/-- the parameters of a Pattern: the count and the set of pattern keys decide `Equals` -/
+theorem patternParam_iff {ps qs : List Bytes} (ha : ps.length ≤ 9223372036854775807) (hb : qs.length ≤ 9223372036854775807) :
+    (intKey ps.length = intKey qs.length ∧ dedupS (sortB (ps.map rxKey)) = dedupS (sortB (qs.map rxKey))) ↔
+      (ps.length = qs.length ∧ containsAll ps qs = true) ∧ containsAll qs ps = true := by
+  rw [dedupS_sortB_eq_iff, containsAll_iff, containsAll_iff, intKey_inj (lenOk ha) (lenOk hb)]
+  constructor
+  · rintro ⟨hl, hm⟩
+    refine ⟨⟨by exact_mod_cast hl, fun s hs => ?_⟩, fun s hs => ?_⟩
+    · obtain ⟨p, hp, e⟩ := List.mem_map.mp ((hm (rxKey s)).mpr (List.mem_map_of_mem hs))
+      rw [← rxKey_inj.mp e]; exact hp
+    · obtain ⟨p, hp, e⟩ := List.mem_map.mp ((hm (rxKey s)).mp (List.mem_map_of_mem hs))
+      rw [← rxKey_inj.mp e]; exact hp
+  · rintro ⟨⟨hl, h1⟩, h2⟩
+    refine ⟨by rw [hl], fun x => ⟨fun hx => ?_, fun hx => ?_⟩⟩
+    · obtain ⟨p, hp, rfl⟩ := List.mem_map.mp hx
+      exact List.mem_map_of_mem (h2 p hp)
+    · obtain ⟨p, hp, rfl⟩ := List.mem_map.mp hx
+      exact List.mem_map_of_mem (h1 p hp)
+
 mutual
 theorem tyKey_iff : ∀ a b : Ty, TyWF a = true → TyWF b = true → (tyKey a = tyKey b ↔ tyEq a b = true)
-  | .any, b, _, _ => by rw [tyKey_eq_iff]; cases b <;> simp [Ty.name, tyEq, tyParamL]
-  | .undef, b, _, _ => by rw [tyKey_eq_iff]; cases b <;> simp [Ty.name, tyEq, tyParamL]
-  | .str, b, _, _ => by rw [tyKey_eq_iff]; cases b <;> simp [Ty.name, tyEq, tyParamL]
+  | .any, b, _, _ => by rw [tyKey_eq_iff, name_eq_iff]; cases b <;> simp [nameTag, tyEq, tyParamL]
+  | .undef, b, _, _ => by rw [tyKey_eq_iff, name_eq_iff]; cases b <;> simp [nameTag, tyEq, tyParamL]
+  | .str, b, _, hb => by
+      rw [tyKey_eq_iff, name_eq_iff]
+      cases b <;> simp [nameTag, tyEq, tyParamL]
+      simp only [TyWF, Bool.and_eq_true, decide_eq_true_eq] at hb
+      exact intParamL_ne_nil hb.1.1
   | .int lo hi, b, ha, hb => by
-      rw [tyKey_eq_iff]
-      cases b <;> simp [Ty.name, tyEq, tyParamL]
+      rw [tyKey_eq_iff, name_eq_iff]
+      cases b <;> simp [nameTag, tyEq, tyParamL]
       simp only [TyWF, Bool.and_eq_true, decide_eq_true_eq] at ha hb
       exact intParamL_inj ha.1 ha.2 hb.1 hb.2
   | .flt lo hi, b, ha, hb => by
-      rw [tyKey_eq_iff]
-      cases b <;> simp [Ty.name, tyEq, tyParamL]
+      rw [tyKey_eq_iff, name_eq_iff]
+      cases b <;> simp [nameTag, tyEq, tyParamL]
       simp only [TyWF, Bool.and_eq_true, decide_eq_true_eq, Bool.not_eq_true'] at ha hb
       exact fltParamL_inj ha.1 ha.2 hb.1 hb.2
   | .enum ci vs, b, ha, hb => by
-      rw [tyKey_eq_iff]
-      cases b <;> simp [Ty.name, tyEq, tyParamL]
+      rw [tyKey_eq_iff, name_eq_iff]
+      cases b <;> simp [nameTag, tyEq, tyParamL]
       rename_i ci' vs'
       simp only [TyWF, decide_eq_true_eq] at ha hb
       exact enumParam_iff ha hb
   | .arr e lo hi, b, ha, hb => by
-      rw [tyKey_eq_iff]
-      cases b <;> simp [Ty.name, tyEq, tyParamL]
+      rw [tyKey_eq_iff, name_eq_iff]
+      cases b <;> simp [nameTag, tyEq, tyParamL]
       rename_i e' lo' hi'
       simp only [TyWF, Bool.and_eq_true, decide_eq_true_eq] at ha hb
       rw [append_sep (P := IsTyKey)]
-      · have hsz : ((if lo = 0 ∧ hi = maxInt then [] else sizeParamL lo hi) =
-            (if lo' = 0 ∧ hi' = maxInt then [] else sizeParamL lo' hi')) ↔ lo = lo' ∧ hi = hi' := by
-          split <;> split
-          · simp_all
-          · simp_all [sizeParamL] <;> omega
-          · simp_all [sizeParamL] <;> omega
-          · exact sizeParamL_inj ha.2.1 ha.2.2 hb.2.1 hb.2.2
-        rw [hsz]
+      · rw [sizeOptL_iff ha.2.1 ha.2.2 hb.2.1 hb.2.2]
         constructor
         · rintro ⟨h1, h2, h3⟩
           subst h2; subst h3
@@ -341,10 +522,10 @@ theorem tyKey_iff : ∀ a b : Ty, TyWF a = true → TyWF b = true → (tyKey a =
           · obtain ⟨u, hu, rfl⟩ := List.mem_map.mp hx
             obtain ⟨v, hv, e⟩ := h2 u hu
             rw [← (ih v hv u hu).mpr e]; exact List.mem_map_of_mem hv
-      | _ => rw [tyKey_eq_iff]; simp [Ty.name, tyEq]
+      | _ => rw [tyKey_eq_iff, name_eq_iff]; simp [nameTag, tyEq]
   | .tup ts sz, b, ha, hb => by
-      rw [tyKey_eq_iff]
-      cases b <;> simp [Ty.name, tyEq, tyParamL]
+      rw [tyKey_eq_iff, name_eq_iff]
+      cases b <;> simp [nameTag, tyEq, tyParamL]
       rename_i us sz'
       simp only [TyWF, Bool.and_eq_true, decide_eq_true_eq] at ha hb
       rw [append_sep (P := IsTyKey) (map_tyKey_isTyKey ts) (map_tyKey_isTyKey us) not_isTyKey_size not_isTyKey_size,
@@ -368,17 +549,95 @@ theorem tyKey_iff : ∀ a b : Ty, TyWF a = true → TyWF b = true → (tyKey a =
       · rintro ⟨⟨h1, h2⟩, h3⟩
         exact ⟨⟨h1, h3⟩, by rw [h2], by rw [h2]⟩
   | .opt t, b, ha, hb => by
-      rw [tyKey_eq_iff]
-      cases b <;> simp [Ty.name, tyEq, tyParamL]
+      rw [tyKey_eq_iff, name_eq_iff]
+      cases b <;> simp [nameTag, tyEq, tyParamL]
       rename_i u
       simp only [TyWF] at ha hb
-      exact optParam_iff (tyKey_iff t u ha hb)
+      exact wrapParamL_iff ha hb (tyKey_iff t u ha hb)
   | .typ t, b, ha, hb => by
-      rw [tyKey_eq_iff]
-      cases b <;> simp [Ty.name, tyEq, tyParamL]
+      rw [tyKey_eq_iff, name_eq_iff]
+      cases b <;> simp [nameTag, tyEq, tyParamL]
       rename_i u
       simp only [TyWF] at ha hb
-      exact optParam_iff (tyKey_iff t u ha hb)
+      exact wrapParamL_iff ha hb (tyKey_iff t u ha hb)
+  | .nul k, b, _, _ => by rw [tyKey_eq_iff, name_eq_iff]; cases b <;> simp [nameTag, tyEq, tyParamL]
+  | .bool v, b, _, _ => by
+      rw [tyKey_eq_iff, name_eq_iff]
+      cases b with
+      | bool v' =>
+        cases v with
+        | none => cases v' <;> simp [nameTag, tyEq, tyParamL]
+        | some x =>
+          cases v' with
+          | none => simp [nameTag, tyEq, tyParamL]
+          | some y => cases x <;> cases y <;> simp [nameTag, tyEq, tyParamL, boolKey]
+      | _ => simp [nameTag, tyEq, tyParamL]
+  | .coll lo hi, b, ha, hb => by
+      rw [tyKey_eq_iff, name_eq_iff]
+      cases b <;> simp [nameTag, tyEq, tyParamL]
+      simp only [TyWF, Bool.and_eq_true, decide_eq_true_eq] at ha hb
+      exact sizeOptL_iff ha.1 ha.2 hb.1 hb.2
+  | .un k t, b, ha, hb => by
+      rw [tyKey_eq_iff, name_eq_iff]
+      cases b <;> simp [nameTag, tyEq, tyParamL]
+      rename_i k' u
+      simp only [TyWF] at ha hb
+      intro hk
+      subst hk
+      exact wrapParamL_iff ha hb (tyKey_iff t u ha hb)
+  | .strSize lo hi, b, ha, hb => by
+      rw [tyKey_eq_iff, name_eq_iff]
+      simp only [TyWF, Bool.and_eq_true, decide_eq_true_eq] at ha
+      cases b <;> simp [nameTag, tyEq, tyParamL]
+      · exact intParamL_ne_nil ha.1.1
+      · simp only [TyWF, Bool.and_eq_true, decide_eq_true_eq] at hb
+        have m1 : minInt ≤ lo := by unfold minInt; omega
+        rename_i lo' hi'
+        have m2 : minInt ≤ lo' := by unfold minInt; omega
+        exact intParamL_inj ⟨m1, ha.1.2⟩ ha.2 ⟨m2, hb.1.2⟩ hb.2
+      · exact intParamL_ne_str
+  | .strVal v, b, _, _ => by
+      rw [tyKey_eq_iff, name_eq_iff]
+      cases b <;> simp [nameTag, tyEq, tyParamL]
+      exact fun h => intParamL_ne_str h.symm
+  | .rx p, b, _, _ => by
+      rw [tyKey_eq_iff, name_eq_iff]
+      cases b with
+      | rx q => cases p <;> cases q <;> simp [nameTag, tyEq, tyParamL, rxKey]
+      | _ => simp [nameTag, tyEq, tyParamL]
+  | .pattern ps, b, ha, hb => by
+      rw [tyKey_eq_iff, name_eq_iff]
+      cases b <;> simp [nameTag, tyEq, tyParamL]
+      simp only [TyWF, decide_eq_true_eq] at ha hb
+      exact patternParam_iff ha hb
+  | .tref s, b, _, _ => by
+      rw [tyKey_eq_iff, name_eq_iff]
+      cases b with
+      | tref s' =>
+        simp only [nameTag, tyEq, tyParamL, true_and, beq_iff_eq]
+        by_cases h : s = unresolvedRef
+        · by_cases h' : s' = unresolvedRef
+          · simp [h, h']
+          · simp [h, h']; try (exact fun e => h' e.symm)
+        · by_cases h' : s' = unresolvedRef
+          · simp [h, h']; try (exact h)
+          · simp [h, h']
+      | _ => simp [nameTag, tyEq, tyParamL]
+  | .semverT o rs, b, ha, hb => by
+      rw [tyKey_eq_iff, name_eq_iff]
+      cases b with
+      | semverT o' rs' =>
+        simp only [TyWF, List.all_eq_true] at ha hb
+        simp only [nameTag, tyEq, tyParamL, true_and, rangesEq_iff]
+        by_cases h : rs = matchAllR
+        · by_cases h' : rs' = matchAllR
+          · simp [h, h']
+          · simp [h, h']; try (exact fun e => h' e.symm)
+        · by_cases h' : rs' = matchAllR
+          · simp [h, h']; try (exact h)
+          · simp only [h, h', if_false, List.cons.injEq, and_true, List.append_cancel_left_eq]
+            exact ⟨fun e => normStr_inj ha hb e, fun e => by rw [e]⟩
+      | _ => simp [nameTag, tyEq, tyParamL]
 theorem tyKey_iff_L : ∀ ts us : List Ty, TyWFL ts = true → TyWFL us = true →
     (ts.map tyKey = us.map tyKey ↔ ts.length = us.length ∧ tyEqL ts us = true)
   | [], [], _, _ => by simp [tyEqL]
